@@ -104,7 +104,10 @@ pub fn run(ctx: &Ctx) -> Rep {
         if hi - lo == 4 {
             st.x.span5_by_cat[cat] += 1;
         }
-        if all_orders {
+        // every slot order for all hands in the thorough tier; in quick for every straight, flush and
+        // straight flush (15,348 hands: the only ones on which the predicates are ever true) and a seeded 1-in-64 of the rest
+        let special = cat == model::CAT_STRAIGHT as usize || cat == model::CAT_FLUSH as usize || cat == model::CAT_SF as usize;
+        if all_orders || special || drive::selected(c, seed, 0x1364, 64) {
             for p in &perms {
                 let a = [c[p[0] as usize], c[p[1] as usize], c[p[2] as usize], c[p[3] as usize], c[p[4] as usize]];
                 check(st, &a, key);
@@ -171,7 +174,7 @@ pub fn run(ctx: &Ctx) -> Rep {
     rep.rule = format!(
         "every five-card hand (enumerated once = distinct) in {}; four predicates against suits/ranks by the rules, against the ranked category, \
          and the two deprecated free functions against the methods",
-        if all_orders { "all 120 slot orders" } else { "canonical, reversed and six seeded slot orders" }
+        if all_orders { "all 120 slot orders" } else { "canonical, reversed and six seeded slot orders (all 120 for every straight / flush / straight flush and a seeded 1-in-64 of the other hands)" }
     );
     rep
 }
